@@ -16,6 +16,7 @@ Theorem C06_device_accepts_only_next :
     ro <> RoDecryptionError ->
     exists p, c = Enc kr (iso_iv Reader (count_b dev_attempt pre + 1)) p.
 Proof. exact accept_only_next_in_history. Qed.
+Print Assumptions C06_device_accepts_only_next.
 
 Theorem C06_reader_accepts_only_next :
   forall (pre : list op) (c : cipher) (kr kd : N),
@@ -25,6 +26,7 @@ Theorem C06_reader_accepts_only_next :
     ro <> RsDecryptionError ->
     exists p, c = Enc kd (iso_iv Device (count_b rdr_attempt pre + 1)) p.
 Proof. exact rdr_accept_only_next_in_history. Qed.
+Print Assumptions C06_reader_accepts_only_next.
 
 (* every other ciphertext: decryption error, no plaintext-derived data, state and send counter
    untouched (in particular no response is prepared), nothing encrypted *)
@@ -33,12 +35,14 @@ Theorem C06_device_reject_shape :
     (forall p, c <> Enc (d_kr d) (iv Reader (incr (d_recv d))) p) ->
     dev_handle_request d (WData c) = (bump_recv d, RoDecryptionError, []).
 Proof. exact dev_reject_shape. Qed.
+Print Assumptions C06_device_reject_shape.
 
 Theorem C06_reader_reject_shape :
   forall (r : rdr) (c : cipher),
     (forall p, c <> Enc (r_kd r) (iv Device (incr (r_recv r))) p) ->
     rdr_handle_response r (WData c) = (bump_rrecv r, RsDecryptionError).
 Proof. exact rdr_reject_shape. Qed.
+Print Assumptions C06_reader_reject_shape.
 
 (* the named instances *)
 Theorem C06_modified_or_truncated :
@@ -46,43 +50,52 @@ Theorem C06_modified_or_truncated :
     dev_handle_request d (WData Junk) = (bump_recv d, RoDecryptionError, []) /\
     rdr_handle_response r (WData Junk) = (bump_rrecv r, RsDecryptionError).
 Proof. exact junk_rejected. Qed.
+Print Assumptions C06_modified_or_truncated.
 
 Theorem C06_other_keys_device : forall (d : dev) k nonce p, k <> d_kr d ->
   dev_handle_request d (WData (Enc k nonce p)) = (bump_recv d, RoDecryptionError, []).
 Proof. exact foreign_key_rejected_dev. Qed.
+Print Assumptions C06_other_keys_device.
 
 Theorem C06_other_keys_reader : forall (r : rdr) k nonce p, k <> r_kd r ->
   rdr_handle_response r (WData (Enc k nonce p)) = (bump_rrecv r, RsDecryptionError).
 Proof. exact foreign_key_rejected_rdr. Qed.
+Print Assumptions C06_other_keys_reader.
 
 Theorem C06_replay_or_reorder_device : forall (d : dev) k m p,
   m < two32 -> d_recv d + 1 < two32 -> m <> d_recv d + 1 ->
   dev_handle_request d (WData (Enc k (iv Reader m) p)) = (bump_recv d, RoDecryptionError, []).
 Proof. exact wrong_counter_rejected_dev. Qed.
+Print Assumptions C06_replay_or_reorder_device.
 
 Theorem C06_replay_or_reorder_reader : forall (r : rdr) k m p,
   m < two32 -> r_recv r + 1 < two32 -> m <> r_recv r + 1 ->
   rdr_handle_response r (WData (Enc k (iv Device m) p)) = (bump_rrecv r, RsDecryptionError).
 Proof. exact wrong_counter_rejected_rdr. Qed.
+Print Assumptions C06_replay_or_reorder_reader.
 
 Theorem C06_reflection_device : forall (d : dev) k n p,
   dev_handle_request d (WData (Enc k (iv Device n) p)) = (bump_recv d, RoDecryptionError, []).
 Proof. exact reflection_rejected_dev. Qed.
+Print Assumptions C06_reflection_device.
 
 Theorem C06_reflection_reader : forall (r : rdr) k n p,
   rdr_handle_response r (WData (Enc k (iv Reader n) p)) = (bump_rrecv r, RsDecryptionError).
 Proof. exact reflection_rejected_rdr. Qed.
+Print Assumptions C06_reflection_reader.
 
 (* and the peer's next message is accepted *)
 Theorem C06_device_accepts_next : forall (d : dev) p,
   exists d' ro em, dev_handle_request d (WData (Enc (d_kr d) (iv Reader (incr (d_recv d))) p)) = (d', ro, em)
                    /\ ro <> RoDecryptionError /\ ro <> RoParsingError.
 Proof. exact dev_accepts_next. Qed.
+Print Assumptions C06_device_accepts_next.
 
 Theorem C06_reader_accepts_next : forall (r : rdr) p,
   exists r' ro, rdr_handle_response r (WData (Enc (r_kd r) (iv Device (incr (r_recv r))) p)) = (r', ro)
                 /\ ro <> RsDecryptionError.
 Proof. exact rdr_accepts_next. Qed.
+Print Assumptions C06_reader_accepts_next.
 
 (* non-vacuity: a replayed request and a reflected response inside one history *)
 Example C06_ex :
